@@ -55,6 +55,13 @@ func (w *WLog) Block(b int) {
 	}
 }
 
+// Tick records progress without announcing a case (long-running blocks).
+func (w *WLog) Tick() {
+	if w.f != nil {
+		w.f.WriteString("TICK\n") //nolint: errcheck
+	}
+}
+
 // Begin announces case i of block b. It returns false if the case must be skipped.
 // desc is only evaluated when the line is actually written.
 func (w *WLog) Begin(b, i int, desc func() any) bool {
